@@ -264,7 +264,7 @@ func C03(c *vk.Ctx) {
 			c.Sample(map[string]any{"cfg": cfg, "cells": len(pg.Edges)})
 		}
 	}
-	if walks < c.Pick(900, 5000) {
+	if walks < c.Pick(900, 2600) {
 		c.Infra("the mode table was replayed on %d cells only: the check would be vacuous", walks)
 	}
 	c03Histories(c)
